@@ -16,11 +16,11 @@ using namespace FEAT; using namespace vh;
 static int g_level = 1;
 
 template<typename DT, typename Shape_, template<typename...> class Elem_, typename... Extra_>
-void transfer_case(const std::string& ename, int nparam, const char* cub, int interp_kind)
+void transfer_case(const std::string& ename, int nparam, const char* cub, int interp_kind, int perm_mode = 0)
 {
   typedef Geometry::ConformalMesh<Shape_, Shape_::dimension, DT> Mesh; constexpr int dim = Shape_::dimension;
   typedef Trafo::Standard::Mapping<Mesh> TrafoT; typedef Elem_<TrafoT, Extra_...> SpaceT; typedef LAFEM::SparseMatrixCSR<DT, Index> MT; typedef LAFEM::DenseVector<DT, Index> VT;
-  std::string cn = "transfer " + ename + " dim=" + str(Index(dim)) + " params=" + str(Index(nparam)); if(!H<DT>::want(cn)) return;
+  std::string cn = "transfer " + ename + " dim=" + str(Index(dim)) + " params=" + str(Index(nparam)) + (perm_mode == 0 ? "" : perm_mode == 1 ? " fine mesh permuted" : perm_mode == 2 ? " coarse mesh permuted" : " both meshes permuted"); if(!H<DT>::want(cn)) return;
   H<DT>::begin(cn, "{\"element\":\"" + ename + "\"}");
   int rc = guarded([&] {
     Geometry::ReferenceCellFactory<Shape_, DT> fac; Mesh mesh(fac);
@@ -34,6 +34,13 @@ void transfer_case(const std::string& ename, int nparam, const char* cub, int in
       if constexpr(dim == 3) { DT z = vs[v][2]; vs[v][2] = (nparam >= 2) ? DT(hz * z) : DT(hx * z); }
     }
     Geometry::StandardRefinery<Mesh> refinery(mesh); Mesh fine(refinery);
+    // renumbered meshes (the transfer code has to translate the 2-level cell relation through the mesh permutations)
+    auto renumber = [&](Mesh& m, Index shift) {
+      Geometry::MeshPermutation<Shape_> mp; auto& pa = mp.create_other();
+      for(int d = 0; d <= dim; ++d) { const Index n = m.get_num_entities(d); std::vector<Index> v(n); for(Index i = 0; i < n; ++i) v[i] = (i + shift) % n; pa.at(std::size_t(d)) = Adjacency::Permutation(n, Adjacency::Permutation::ConstrType::perm, v.data()); }
+      mp.create_inverse_permutations(); m.set_permutation(std::move(mp)); };
+    if(perm_mode & 1) renumber(fine, 1);
+    if(perm_mode & 2) renumber(mesh, 2);
     TrafoT trafo_c(mesh), trafo_f(fine); SpaceT space_c(trafo_c), space_f(trafo_f);
     Cubature::DynamicFactory cf(cub);
     MT P; Assembly::SymbolicAssembler::assemble_matrix_2lvl(P, space_f, space_c); P.format();
@@ -41,7 +48,7 @@ void transfer_case(const std::string& ename, int nparam, const char* cub, int in
     const Index nf = P.rows(), nc = P.columns(); Dense<DT> D = csr_to_dense<DT>(P);
     H<DT>::fact("dimensions", nf == space_f.get_num_dofs() && nc == space_c.get_num_dofs());
     for(Index i = 0; i < nf; ++i) { DT s = DT(0); for(Index j = 0; j < nc; ++j) s += D[i][j]; H<DT>::eq("prolongation reproduces constants: row " + str(i), s, DT(1)); }
-    if(interp_kind == 1)
+    if(interp_kind == 1 && perm_mode == 0)
     {
       // Lagrange1: fine dof i is fine vertex i; coarse vertices keep their numbers, edge midpoint m of coarse edge e gets number nv + e
       auto& ve = mesh.template get_index_set<1, 0>(); const Index nv = mesh.get_num_entities(0);
@@ -66,6 +73,16 @@ void transfer_case(const std::string& ename, int nparam, const char* cub, int in
     tr.prol(outf, vc); tr.rest(vf, outc); tr.trunc(vf, outt);
     for(Index i = 0; i < nf; ++i) { DT s = DT(0); for(Index j = 0; j < nc; ++j) s += D[i][j] * vc(j); H<DT>::eq("Transfer::prol [" + str(i) + "]", outf(i), s); }
     for(Index a = 0; a < nc; ++a) { DT s = DT(0), t = DT(0); for(Index i = 0; i < nf; ++i) { s += D[i][a] * vf(i); t += DTm[a][i] * vf(i); } H<DT>::eq("Transfer::rest = P^T v [" + str(a) + "]", outc(a), s); H<DT>::eq("Transfer::trunc [" + str(a) + "]", outt(a), t); }
+    if(interp_kind == 1 && nparam == 1)
+    {
+      // numbering-independent oracle: a P1 prolongation reproduces every affine function f(x) = a + b.x at the fine vertices (dof i = vertex i)
+      DT fa = H<DT>::var("fa", 0.625), fb[3] = {H<DT>::var("fb0", -0.375), H<DT>::var("fb1", 1.125), H<DT>::var("fb2", 0.4375)};
+      auto f = [&](const auto& x) { DT r = fa; for(int d = 0; d < dim; ++d) r += fb[d] * x[d]; return r; };
+      VT fc(nc, DT(0)), ff(nf, DT(0)), ffm(nf, DT(0));
+      for(Index j = 0; j < nc; ++j) fc(j, f(mesh.get_vertex_set()[j]));
+      tr.prol(ff, fc); Assembly::GridTransfer::prolongate_vector_direct(ffm, fc, space_f, space_c, String(cub));
+      for(Index i = 0; i < nf; ++i) { H<DT>::eq("prolongation reproduces affine functions at fine vertex " + str(i), ff(i), f(fine.get_vertex_set()[i])); H<DT>::eq("matrix-free prolongation reproduces affine functions at fine vertex " + str(i), ffm(i), f(fine.get_vertex_set()[i])); }
+    }
     // matrix-free prolongation
     VT mf(nf, DT(0)); Assembly::GridTransfer::prolongate_vector_direct(mf, vc, space_f, space_c, String(cub));
     for(Index i = 0; i < nf; ++i) { DT s = DT(0); for(Index j = 0; j < nc; ++j) s += D[i][j] * vc(j); H<DT>::eq("matrix-free prolongation == P v [" + str(i) + "]", mf(i), s); }
@@ -88,6 +105,7 @@ void run_all()
     transfer_case<DT, Shape::Simplex<2>, D0>("discontinuous-p0", np, "auto-degree:2", 0);
   }
   transfer_case<DT, Shape::Simplex<2>, D1>("discontinuous-p1", 1, "auto-degree:3", 0);
+  for(int pm = 1; pm <= 3; ++pm) { transfer_case<DT, Shape::Simplex<2>, L1>("lagrange1", 1, "auto-degree:3", 1, pm); transfer_case<DT, Shape::Simplex<2>, D0>("discontinuous-p0", 1, "auto-degree:2", 0, pm); }
   if(g_level > 1) { transfer_case<DT, Shape::Simplex<2>, L2>("lagrange2", 1, "auto-degree:5", 0); transfer_case<DT, Shape::Simplex<3>, L1>("lagrange1", 1, "auto-degree:3", 0); transfer_case<DT, Shape::Simplex<2>, L2>("lagrange2", 2, "auto-degree:5", 0); }
 }
 
